@@ -118,6 +118,19 @@ def worker(args):
                 if dec is not None and classified(part, legend, dec, P, text, T, sc, open_ids):
                     part.cnt("classified_documents")
                     if it == 0: part.sample({"part": "classification", "text": text[:200], "decoded_head": dec[:8], "legend": legend}, 1)
+            if rng.random() < .4:
+                # asked again after an edit that keeps every byte offset but moves the lines: a blank becomes a line break or the reverse
+                idx = [i for i, c in enumerate(text) if c in " \n" and (i == 0 or text[i - 1] != "\r")]
+                if idx:
+                    i = rng.choice(idx); T0 = layout.Text(text); b0 = len(text[:i].encode())
+                    ch = {"range": T0.rng(b0, b0 + 1), "text": "\n" if text[i] == " " else " "}
+                    new = text[:i] + ch["text"] + text[i + 1:]
+                    if lspmodel.apply_change(text, ch) == new:
+                        sess.server().change(uri, [ch])
+                        res = sess.result("textDocument/semanticTokens/full", {"textDocument": {"uri": uri}}); part.ev()
+                        sc2 = {"kind": "wellformed", "text": text, "change": ch}
+                        if not isinstance(res, dict) or "data" not in res: part.fail("semanticTokens after a white-space edit answers %r" % (res,), sc2)
+                        elif wellformed(part, legend, res["data"], new, sc2) is not None: part.cnt("asked_again_after_a_line_moving_edit")
             sess.close(uri)
         except (ServerDied, Timeout, FrameError) as e:
             feat.died(part, e, "semanticTokens request", sc, sess)
